@@ -218,7 +218,13 @@ def run_pair(case):
         out["min_dist"] = float(a.minimumDistanceTo(b))
         if guest:
             g, h = (b, a) if guest == "b" else (a, b)
-            out["host_contains_guest"] = bool(h.occupiedSpace.containsObject(g))
+            # passes 3/4 may draw random candidate points (numpy global generator): the verdict must not depend on them
+            res = []
+            for sd in (1, 2, 3):
+                np.random.seed(sd)
+                res.append(bool(h.occupiedSpace.containsObject(g)))
+            out["host_contains_guest"] = res[0]
+            out["host_contains_guest_all"] = res
     except Exception as e:
         out["exc"] = type(e).__name__ + ": " + str(e)[:200]
     if guest and "host_piece" in (cb if guest == "b" else ca):
